@@ -149,6 +149,15 @@ func (v *Verifier) loadGlobal(s *State, o *types.Var) *Term {
 			} else {
 				v.evalMapTable(s, o, init, h)
 			}
+			// sentinel errors: var errX = errors.New(...) / fmt.Errorf(...)
+			if call, ok := init.(*ast.CallExpr); ok && h.Sort == SIface {
+				if sel, ok := call.Fun.(*ast.SelectorExpr); ok {
+					if id, ok := sel.X.(*ast.Ident); ok && ((id.Name == "errors" && sel.Sel.Name == "New") || (id.Name == "fmt" && sel.Sel.Name == "Errorf")) {
+						s.assume(Neq(IType(h), IntLit(0)))
+						v.assumed["package-level sentinel error "+o.Pkg().Name()+"."+o.Name()+" keeps its initial non-nil value"] = true
+					}
+				}
+			}
 		}
 		s.assume(v.typeFacts(s, h, o.Type()))
 	}
